@@ -67,12 +67,18 @@ def work(ctx, tier):
     rng = common.rng_for(ctx, "main")
     nb = (9000 if tier == "quick" else 300000) // ctx.nshards
     for k, sc in enumerate(gen.boundary_timing_scenarios(rng, nb)):
+        if k % 3 == 0:
+            sc["via_config"] = True
+        if k % 4 == 1:
+            # strategy object whose record_failure() feedback takes time: the remaining time must be measured afterwards
+            sc["cfg"]["strategy_objects"] = ["default"]
+            sc["calls"][0]["rf_dur"] = [rng.choice([0.0, gen.G, 0.25, 0.5]) for _ in range(4)]
         for e in common.pick_entries(rng, rig.ENTRIES, 2):
             _one(ctx, sc, e, stats, rng, sample=(k < 2 and ctx.shard == 0))
         ctx.inc("boundary_scenarios")
     n = (5000 if tier == "quick" else 150000) // ctx.nshards
     for k in range(n):
-        sc = gen.rand_scenario(rng, p_special=0.02, p_budget=0.2, p_handler=0.2, p_abort=0.1, ncalls=(1, 2), p_no_sleeper=0.3)
+        sc = gen.rand_scenario(rng, p_special=0.02, p_budget=0.2, p_handler=0.2, p_abort=0.1, ncalls=(1, 2), p_no_sleeper=0.3, p_strategy_objects=0.4, rf_time=True, p_via_config=0.3)
         for e in common.pick_entries(rng, rig.ENTRIES, 2):
             _one(ctx, sc, e, stats, rng)
         ctx.inc("random_scenarios")
